@@ -72,6 +72,7 @@ type a2spec struct {
 	DupCreator  bool
 	MainTail    []byte            // extra bytes appended to the main packet body (e.g. a partial id)
 	IndexRecv   bool              // put a recovery packet into the index file
+	IndexRecvN  int               // > 0: that packet carries exponent 0 and IndexRecvN-1 bytes of data (and no volume file has exponent 0)
 	Reseal      bool              // recompute the set id from the (mutated) main body; else keep the original id
 	LenOverride map[string]uint64 // packet kind -> header length field value
 	OrigSetID   [16]byte
@@ -334,6 +335,18 @@ func init() {
 	add("main.ids.partial-id-appended", func(a *a2spec) { a.MainTail = []byte{1, 2, 3, 4} })
 	add("main.ids.partial-id-appended-12", func(a *a2spec) { a.MainTail = []byte{1, 2, 3, 4, 5, 6, 7, 8, 9, 10, 11, 12} })
 	add("index.contains-recovery-packet", func(a *a2spec) { a.IndexRecv = true })
+	// ... whose block is shorter / longer than the slice size (every check made on recovery packets of volume files
+	// has to be made on this one, too, if it is accepted at all)
+	for _, n := range []int{0, 4, 12, 64} {
+		n := n
+		add(fmt.Sprintf("index.contains-recovery-packet.size=%d", n), func(a *a2spec) {
+			// the only packet with exponent 0, so a Repair that needs blocks starts with this one
+			a.IndexRecv, a.IndexRecvN = true, n+1
+			if len(a.Recvs) > 1 && a.Recvs[0].Exp == 0 {
+				a.Recvs[0].Exp = 77
+			}
+		})
+	}
 	add("main.missing", func(a *a2spec) { a.Main = false })
 	add("main.duplicated", func(a *a2spec) { a.DupMain = true })
 	add("creator.missing", func(a *a2spec) { a.Creator = false })
@@ -924,6 +937,9 @@ func c19RunP2(c *c19Case, r *core.Rec) {
 		body = append(body, rv.Data...)
 		if rv.Bare {
 			body = nil
+		}
+		if idxSpec.IndexRecvN > 0 {
+			body = make([]byte, 4+idxSpec.IndexRecvN-1)
 		}
 		idxPk = append(idxPk, idxSpec.frame("recv", rpar2.TypeRecv, body))
 	}
